@@ -1,4 +1,5 @@
 """C15 — rate and concurrency limits on every RPC stream (structural mechanisms; the numeric window bound is not decided)."""
+from . import common
 from engine import query as Q
 from engine.terms import show, subterms
 from engine.guards import Atom, Walker, field_path, chain, Inliner
@@ -221,9 +222,10 @@ def rule_burst(ctx):
     T = ctx.T(f)
 
     def m(a, b):
-        if chain(a)[1][-1:] == ["burst"] and b in (("upvar", "permits"),):
+        pn = common.pnames(f, "usize")
+        if chain(a)[1][-1:] == ["burst"] and common.is_p(b, pn):
             return 1
-        if chain(b)[1][-1:] == ["burst"] and a in (("upvar", "permits"),):
+        if chain(b)[1][-1:] == ["burst"] and common.is_p(a, pn):
             return -1
         return 0
     oks = [bi for bi, b in enumerate(f.blocks) for s in b["s"] if s["k"] == "assign" and s["p"]["l"] in Q.ret_locals(f) and s["r"]["k"] == "agg" and s["r"].get("variant") == "Ok"]
